@@ -100,3 +100,21 @@ pub fn adt_events(t: &mut TraceFile, evs: &[verif::Event]) {
         }
     }
 }
+
+/// writer mechanism events (Trace_Writer.tla)
+pub fn writer_events(t: &mut TraceFile, evs: &[verif::Event]) {
+    for e in evs {
+        match e.kind {
+            "sctx" => t.line(json!({"ev": "sctx"})),
+            "w" => t.line(json!({"ev": "w", "n": e.a.min(1 << 30), "d": e.b})),
+            "pushb" => t.line(json!({"ev": "pushb", "len": e.a, "d": e.b})),
+            "popb" => t.line(json!({"ev": "popb", "len": e.a, "d": e.b})),
+            "anew" => t.line(json!({"ev": "anew", "ver": e.a, "buf": e.b})),
+            "wf" => t.line(json!({"ev": "wf", "chunk": e.a, "buf": e.b})),
+            "afin" => t.line(json!({"ev": "afin", "nb": e.a})),
+            "ahdr" => t.line(json!({"ev": "ahdr"})),
+            "aend" => t.line(json!({"ev": "aend"})),
+            _ => {}
+        }
+    }
+}
